@@ -50,6 +50,7 @@ func LoadWorld() (*World, error) {
 func (w *World) NewExec() *Exec {
 	ex := NewExec(w.Prog, w.Pkg)
 	ex.runInit()
+	ex.installAssumed()
 	return ex
 }
 
